@@ -69,6 +69,12 @@ def run(ctx):
     r3, c3 = acordnets.generate(ctx, "c06s", {"NP": 4, "Kinds": K3D, "Keep": 13 if q else 1, "Seed": ctx.seed}, module="Acord3D")
     st3d = acordnets.run(ctx, c3, algs=(None,), spatial=True)
     ctx.note("Acord3D: %d construction histories (%d states), %d runs, %d points positioned in x, y, z" % (len(c3), r3.distinct, st3d["runs"], st3d["points_checked"]))
+    # a sample of all three families through the sanitizer build
+    step = 7 if q else 3
+    sts = [acordnets.run(ctx, ca[::step * 3], kind="asan"), acordnets.run(ctx, ch[::step * 5], heights=True, kind="asan"),
+           acordnets.run(ctx, c3[::step * 2], spatial=True, kind="asan")]
+    san_runs = sum(x["runs"] for x in sts)
+    ctx.note("sanitizer build: %d runs of AcordModel / AcordHeights / Acord3D networks" % san_runs)
     ctx.note("AcordModel: %d construction histories over 5 points (%d states), %d over 4 points with further observations (%d states); %d runs, %d points positioned"
              % (len(ca), ra.distinct, len(cb), rb.distinct, sta["runs"] + stb["runs"], sta["points_checked"] + stb["points_checked"]))
     if ed:
@@ -81,6 +87,7 @@ def run(ctx):
             "acord_model": {"histories_5pts": len(ca), "histories_4pts_extra": len(cb), "runs": sta["runs"] + stb["runs"], "adjusted": sta["adjusted"] + stb["adjusted"],
                             "points_positioned": sta["points_checked"] + stb["points_checked"], "by_construction": sta["by_construction"],
                             "tlc_invariants": "Determined (constructed points are in the closure), Monotone (added observations never shrink the closure)"},
+            "sanitizer_runs": san_runs,
             "acord_3d": {"histories": len(c3), "runs": st3d["runs"], "adjusted": st3d["adjusted"], "points_positioned": st3d["points_checked"],
                          "by_construction": st3d["by_construction"]},
             "acord_heights": {"histories": len(ch), "runs": sth["runs"], "adjusted": sth["adjusted"], "heights_derived": sth["points_checked"],
